@@ -3,7 +3,7 @@ E-MIR merge mode on the real kernels (all transition systems with n variables, a
 real libraries (laws as extended formulas over wild-cards; EF/AG/EU against the library's reachability procedures)."""
 import z3
 from .. import kernels as KL, unicheck as UC, uni
-from ..oracle import sem as S
+from ..oracle import sem as S, gen as G
 
 A, B = ('wild', 'a'), ('wild', 'b')
 
@@ -115,6 +115,7 @@ def e_uni(chk, thorough):
             ('imp', ('EF', ('and', W, P)), ('EF', W)), ('imp', ('AG', ('and', W, P)), ('AG', W)), ('imp', ('EG', ('and', W, P)), ('EG', P)),
             ('imp', ('EU', ('and', W, P), P), ('EU', W, P)), ('imp', ('AU', W, ('and', W, P)), ('AU', W, P)), ('imp', ('AX', ('and', W, P)), ('AX', W)),
             ('imp', ('and', W, ('bind', 'x', None, ('AX', ('var', 'x')))), ('EX', W))]
+    one_way(chk, thorough)
     chk.bounds['E-UNI'] = 'instances U2, C2 (2 variables, all colours; constrained regulations) and S3 (3 variables, 2 regulators each, 2^12 colours); wild-card sets are arbitrary coloured sets (uninterpreted n-ary parameters)'
     for inst in UC.instances(['U2', 'C2'] + (['S3'] if thorough else [])):
         fl = [f for f in laws if inst.name != 'S3' or 'p' not in S.labels(f)[0]]
@@ -147,6 +148,30 @@ def e_uni(chk, thorough):
                 else: chk.obligation(full + ' (does not reproduce)', 'E-UNI', 'inconclusive')
             else: chk.obligation(full, 'E-UNI', 'timeout', v.seconds)
 
+
+def one_way(chk, thorough):
+    """unfolding laws and semantics with concrete operands on the one-way instance W2 (and U2): shortcuts that test emptiness
+    over all colours at once cannot hide behind a colour that keeps a variable moving"""
+    unfold = {'EU': 'EX', 'EW': 'EX', 'AU': 'AX', 'AW': 'AX'}
+    pairs = G.operand_pairs(('EU', 'AU', 'EW', 'AW'))
+    if not thorough: pairs = [f for f in pairs if (f[1][0] != 'and') != (f[2][0] != 'and') or (f[1][0] != 'and' and f[2][0] != 'and')]
+    for inst in UC.instances(['W2'] + (['U2'] if thorough else [])):
+        for i in range(0, len(pairs), 12):
+            chunk = pairs[i:i + 12]
+            laws = [('iff', f, ('or', f[2], ('and', f[1], (unfold[f[0]], f)))) for f in chunk]
+            sess = UC.Session(inst, 1, [{'phis': [f]} for f in chunk] + [{'phis': [l]} for l in laws])
+            for j, f in enumerate(chunk):
+                b = sess.first(j)
+                name = f'C11/E-UNI {inst.name}: {S.show(f)} == explicit fixpoint semantics for every colour'
+                if b is None: chk.obligation(name, 'E-UNI', 'violated'); chk.violation(name, 'law-error', {'answer': sess.runs[j], 'formula': S.show(f)}, 'evaluation failed'); continue
+                UC.check_equiv(chk, 'C11', sess, f, b, name, 'one-way')
+                r = sess.runs[len(chunk) + j]
+                name = f'C11/E-UNI {inst.name}: unfolding law of {S.show(f)} holds in every state and colour'
+                if 'ok' not in r: chk.obligation(name, 'E-UNI', 'violated'); chk.violation(name, 'law-error', {'answer': r, 'formula': S.show(laws[j])}, 'evaluation failed'); continue
+                v = uni.decide([sess.dec.unit, z3.Not(sess.dec.bdd(r['ok']))]); chk.queries += 1
+                if v.status == 'unsat': chk.obligation(name, 'E-UNI', 'holds', v.seconds, True, {'formula': S.show(laws[j]), 'instance': inst.name, 'verdict': 'unsat'})
+                elif v.status == 'sat': UC.confirm(chk, 'C11', sess, laws[j], r['ok'], v.model, name, 'law')
+                else: chk.obligation(name, 'E-UNI', 'timeout', v.seconds)
 
 def beyond_bound(chk):
     """native only (no solver, outside the claim): the law formulas on the bundled 13-variable model evaluate to the unit set"""
